@@ -145,8 +145,8 @@ func CompareValues(left r.Element, right r.Element, verb uint8) (bool, error) {
 			if len(vl.value) != len(vr.value) {
 				return false, nil
 			}
-			// cmp each item
-			for idx := range vl.value {
+			// cmp each item (by the order of keys to yield a stable result)
+			for _, idx := range vl.keyOrder {
 				// ensure the key exists on vr
 				vrr, ok := vr.value[idx]
 				if !ok {
@@ -156,7 +156,10 @@ func CompareValues(left r.Element, right r.Element, verb uint8) (bool, error) {
 				if err != nil {
 					return false, err
 				}
-				return cmpVal, nil
+				// break the loop only when cmpVal = false
+				if !cmpVal {
+					return false, nil
+				}
 			}
 			return true, nil
 		}
